@@ -643,20 +643,21 @@ func runMultiConcCase(c *Case) string {
 	return fmt.Sprintf("res %s trace=%s", c.id, joinOrDash(rec.trace))
 }
 
-// ---------- kind=multipark: one schedule of TakeUntil's atomic actions, replayed on the real code ----------
+// ---------- kind=multipark: TakeUntil with the signal parked inside its callback, on the real code ----------
 //
-//   case kf4 kind=multipark op=TakeUntil sub=7 srcs=N11@1,N12@2,E1@3;N21@1 sched=0,1,0,0,1
+//   case p1 kind=multipark op=TakeUntil sub=7 srcs=N11@1,N12@2,E1@3;N21@1 sync=0,0
 //
-// sched (see lean/RoModel/Multi/Micro.lean): 0 = the source thread handles its next notification,
-// 1 = the signal thread's next atomic action (Store(ready,1), then destination.Complete).
-// The only schedules that can be forced from outside without a hook in the library are of the form
-//   0, 1, 0…0, 1 :  the source's first value is being delivered (the recording observer holds the
-// destination's lock), the signal's Next stores the flag and parks on that lock, the source goes on
-// (its values are now skipped, its terminal takes the lock first because it is already running when
-// the lock is released), the signal's Complete arrives last.
-// The park is detected by inspecting the goroutine dump (no sleep); the lock hand-over after the
-// release is decided by the Go runtime (a running goroutine barges in front of a woken waiter), so the
-// run is repeated a few times and the first run that followed the schedule is reported.
+// The source's first value is being delivered (the recording observer holds the destination's lock) when the
+// signal's Next callback runs on another goroutine: it parks on that lock inside destination.Complete. Then the
+// observer returns and the source goes on with the rest of its script while the signal is still inside its
+// callback. The park is detected by inspecting the goroutine dump (no sleep); who gets the lock next is up to
+// the Go runtime (a running goroutine usually barges in front of a woken waiter), so the run is repeated a few
+// times, preferring a run in which the source's terminal was delivered.
+// Result: `park=explained` when the delivered trace is the trace of SOME interleaving of the two scripts
+// (each interleaving replayed on the real operator, every notification processed to quiescence), otherwise
+// `park=unexplained trace=…`. With the flag raised before the completion (the code before fix 3e5361a) the
+// source's next value is skipped and its terminal overtakes the completion: unexplained.
+// The Lean side answers `park=explained` by theorem (C05a.takeUntil_concurrent over RoModel/Multi/Micro.lean).
 
 func init() { registerKind("", nil, "multipark", runMultiParkCase) }
 
@@ -729,34 +730,38 @@ func runMultiParkOnce(mc *multiCase) (string, bool) {
 }
 
 func runMultiParkCase(c *Case) string {
-	sched := parseInts(c.get("sched", "-"))
-	ok := len(sched) >= 3 && sched[0] == 0 && sched[1] == 1 && sched[len(sched)-1] == 1
-	for _, t := range sched[2 : len(sched)-1] {
-		if t != 0 {
-			ok = false
-		}
-	}
-	if c.get("op", "?") != "TakeUntil" || !ok {
+	if c.get("op", "?") != "TakeUntil" {
 		return "res " + c.id + " unsupported"
 	}
 	var last string
+	var scripts [][]Tok
 	for attempt := 0; attempt < 40; attempt++ {
 		mc, bad := parseMulti(c)
-		if mc == nil || len(mc.probes) != 2 || len(mc.probes[1].script) < 1 || len(mc.probes[0].script) != len(sched)-2 {
+		if mc == nil || len(mc.probes) != 2 || len(mc.probes[1].script) < 1 || len(mc.probes[0].script) < 1 ||
+			mc.probes[0].script[0].kind != 'N' || mc.probes[1].script[0].kind != 'N' {
 			return "res " + c.id + " " + bad + "unsupported"
 		}
+		scripts = [][]Tok{mc.probes[0].script, mc.probes[1].script}
 		trace, parked := runMultiParkOnce(mc)
 		if !parked {
 			return "res " + c.id + " harness-timeout"
 		}
 		last = trace
-		// the schedule was followed iff the signal's completion came last, i.e. was refused: the
-		// delivered trace then ends with the source's own terminal
 		toks := strings.Split(trace, ",")
 		srcEnd := mc.probes[0].script[len(mc.probes[0].script)-1]
 		if srcEnd.kind != 'N' && strings.HasPrefix(toks[len(toks)-1], string(srcEnd.kind)) && strings.HasSuffix(toks[len(toks)-1], "."+strconv.Itoa(srcEnd.mark)) {
 			break
 		}
 	}
-	return "res " + c.id + " trace=" + last
+	// the traces of all interleavings, on the real operator
+	for _, order := range interleavings([]int{len(scripts[0]), len(scripts[1])}) {
+		lc := newCase(0, "kind", "multi", "op", "TakeUntil", "sub", c.get("sub", "-"), "srcs", scriptsString(scripts),
+			"sync", "0,0", "order", intsString(order), "cut", "-")
+		for _, f := range strings.Fields(runMultiCase(lc)) {
+			if f == "trace="+last {
+				return "res " + c.id + " park=explained"
+			}
+		}
+	}
+	return "res " + c.id + " park=unexplained trace=" + last
 }
